@@ -162,7 +162,19 @@ def _gen_request(rnd, rid, world, cer_template, universe, fc_owner_pool, big=Fal
                                               else [f"[{own[0]}]"])
             element["e"] = f"{rnd.choice(['Muss', 'X', 'Kann'])} [{pkey}]"
             element["expect_fc"] = own[0]
-        if rnd.random() < 0.1 and element["input"]:
+        if rnd.random() < 0.1:
+            # the shipped date format constraints (931-935, reached through UB1/UB2 or written literally): their
+            # verdict is a function of the element's own datetime
+            element["vt"] = "DATETIME"
+            element["input"] = rnd.choice(["2022-12-31T23:00:00Z", "2022-12-31T05:00:00+00:00", "2023-06-30T22:00:00Z",
+                                           "2023-06-30T04:00:00+00:00", "2022-05-05T12:00:00Z", "kein Datum"])
+            constraint = rnd.choice(["[UB1]", "[UB2]", "[932]", "[934]", "[933]", "[931]"])
+            element["e"] = rnd.choice([f"X {constraint}", f"Muss {constraint}",
+                                       f"Muss [{rnd.choice(fulfilled_rc)}]{constraint}" if fulfilled_rc else f"X {constraint}"])
+            element.pop("expect_fc", None)
+            for key in [k for k, d in owners.items() if d == element["d"]]:
+                del owners[key]
+        elif rnd.random() < 0.1 and element["input"]:
             element["vt"] = "DATETIME"
             element["input"] = rnd.choice(["2022-12-31T23:00:00Z", "2023-03-26T22:00:00Z", "2021-01-01T05:00:00+00:00",
                                            "2022-06-30T22:00:00Z"])
@@ -229,7 +241,8 @@ def generate(seed, tier="quick"):
         world["flavour"] = "dict"
         fixed = dict(requests[0]["cer"])
         fixed["format_constraints"] = {
-            k: {"format_constraint_fulfilled": rnd.random() < 0.4, "error_message": None} for k in world["fc_keys"]
+            k: {"format_constraint_fulfilled": rnd.random() < 0.4, "error_message": None}
+            for k in list(world["fc_keys"]) + ["931", "932", "933", "934", "935"]
         }
         world["dict_cer"] = fixed
         for request in requests:
